@@ -34,7 +34,7 @@ func c11SysSessions() []c11Sys {
 	return []c11Sys{
 		// the flush that recovery performs for a WAL left behind: the first handle is abandoned without Close (the
 		// directory is what a stopped process leaves), the fault hits the calls of the second Open
-		{Name: "recovery-flush", Classes: []string{"client"}, After: "STOPPED", MaxK: 40,
+		{Name: "recovery-flush", Classes: []string{"client", "flusher"}, After: "STOPPED", MaxK: 40,
 			Sess: mkDBSession(small, a[1], a[3], sess.Op{Op: "mark", Text: "STOPPED"}, sess.Op{Op: "abandon"}, sess.Op{Op: "open", Cfg: &reopen}, sess.Op{Op: "close"})},
 		{Name: "flush", Sess: mkDBSession(small, a[0], sess.Op{Op: "barrier"}, a[1], a[2], sess.Op{Op: "close"})},
 		{Name: "flush+compaction", Sess: mkDBSession(small, a[0], sess.Op{Op: "barrier"}, a[2], sess.Op{Op: "rotwait"}, a[1], sess.Op{Op: "compact"}, a[3], sess.Op{Op: "close"})},
